@@ -191,6 +191,20 @@ class LeanSide(object):
         return res
 
 
+    def leanchecker(self, module):
+        """thorough tier: the toolchain's independent re-checker over the compiled property module"""
+        ctx = self.ctx
+        try:
+            p = subprocess.run(['lake', 'env', 'leanchecker', module], cwd=LEAN_DIR, stdout=subprocess.PIPE,
+                               stderr=subprocess.STDOUT, universal_newlines=True, timeout=1200)
+        except Exception as e:      # not a verdict about the property
+            ctx.notes.append('leanchecker could not be run: %r' % (e,))
+            return
+        ctx.variant['leanchecker'] = 'ok' if p.returncode == 0 else 'failed'
+        if p.returncode != 0:
+            ctx.brk('proof', 'leanchecker %s' % module, p.stdout[-400:])
+
+
 class Driver(object):
     """Batch client of the compiled Lean model driver (one JSON line in, one out)."""
 
